@@ -8,6 +8,7 @@ import (
 	"flag"
 	"fmt"
 	"os"
+	"regexp"
 	"runtime"
 	"runtime/debug"
 	"strings"
@@ -230,10 +231,21 @@ func main() {
 func hangProber(after time.Duration) {
 	time.Sleep(after)
 	var common []string
+	var blocked map[string]string
 	for i := 0; i < 25; i++ {
 		buf := make([]byte, 1<<20)
 		n := runtime.Stack(buf, true)
 		fr := libFrames(string(buf[:n]))
+		b := blockedTasks(string(buf[:n]))
+		if i == 0 {
+			blocked = b
+		} else {
+			for g, st := range blocked {
+				if b[g] != st {
+					delete(blocked, g)
+				}
+			}
+		}
 		if i == 0 {
 			common = fr
 		} else {
@@ -249,8 +261,36 @@ func hangProber(after time.Duration) {
 	if len(common) > 0 {
 		site = common[len(common)-1]
 	}
+	// a task of a multi-task world that sits in a blocking primitive in every sample: the stall
+	// may be the simulator's (the orchestrator re-runs the case without the serialising scheduler)
+	for g, st := range blocked {
+		emit("W goroutine %s [%s]", g, st)
+		break
+	}
 	emit("H %s", site)
 	os.Exit(3)
+}
+
+var reGoHeader = regexp.MustCompile(`^goroutine (\d+) \[([^\],]+)`)
+
+// blockedTasks returns, per task goroutine of the scheduler (world.(*Sched).Run on its stack),
+// the blocking state the runtime reports for it, if any.
+func blockedTasks(dump string) map[string]string {
+	out := map[string]string{}
+	for _, g := range strings.Split(dump, "\n\n") {
+		if !strings.Contains(g, "verifsim/world.(*Sched).Run.func") {
+			continue
+		}
+		m := reGoHeader.FindStringSubmatch(g)
+		if m == nil {
+			continue
+		}
+		switch st := m[2]; {
+		case strings.HasPrefix(st, "chan "), st == "select", strings.HasPrefix(st, "sync."), strings.HasPrefix(st, "semacquire"), st == "IO wait":
+			out[m[1]] = st
+		}
+	}
+	return out
 }
 
 // libFrames returns the library functions on the stack of the goroutine that runs the harness,
@@ -304,7 +344,7 @@ func printInfo(id string) {
 	}
 	b, _ := json.Marshal(map[string]interface{}{
 		"id": p.ID, "level": p.Level, "rule": p.Rule, "quick_sec": p.QuickSec, "thorough_sec": p.ThoroughSec,
-		"race": p.Race, "race_phases": p.RacePhases, "phase_budget": p.PhaseBudget, "hang_kind": p.HangKind, "procs": p.Procs, "workers": p.Workers, "run_timeout_sec": p.RunTimeoutSec, "phases": phases,
+		"race": p.Race, "race_phases": p.RacePhases, "phase_budget": p.PhaseBudget, "hang_kind": p.HangKind, "procs": p.Procs, "workers": p.Workers, "run_timeout_sec": p.RunTimeoutSec, "sync_yields": p.SyncYields, "phases": phases,
 		"assumptions": p.Assumptions, "components": p.Components, "campaigns": camps, "enumerated": enum,
 	})
 	fmt.Println(string(b))
